@@ -79,9 +79,56 @@ def run(ctx, fa, own):
                     "bytes": [bytes(w["bytes"]).hex()[:80] if w["ok"] else w["exc"] for w in c["writes"]]})
 
 
+INVS = ["InvConformsEncodes", "InvRoundTrip", "InvMatchCanon", "InvPrefixFree", "InvPartition", "InvConcat", "InvNormIdempotent"]
+
+
+def model_and_replay(ctx, fa, clauses):
+    """M: the spec's own properties on the bounded universe; G: every case of that universe replayed into the implementation."""
+    from . import mcheck, p_layout
+    mcheck.model_check(ctx, "MC_Binary", {"Depth": 1}, INVS, "inv")
+    cases = mcheck.emit(ctx, "MC_Binary", {"Depth": 1}, "emit")
+    ctx.extra["universe_cases_replayed"] = len(cases)
+    if len(cases) < 100:
+        ctx.machinery.append("MC_Binary printed only %d cases" % len(cases))
+    for i, c in enumerate(cases):
+        raw = mcheck.tree_to_raw(c["t"])
+        datum = proj.unpv(c["v"])
+        want = bytes(c["b"])
+        rec = {"id": "G%d" % i, "op": "g_binary", "schema": raw, "datum": repr(datum), "bytes": c["b"]}
+        fo = io.BytesIO()
+        try:
+            fa.schemaless_writer(fo, raw, datum)
+            got = fo.getvalue()
+        except Exception as e:  # noqa: BLE001
+            got = None
+            rec["write_exc"] = type(e).__name__
+        ctx.mark("G" + core.case_key([raw, c["v"]]), len(want) >= 2)
+        ctx.traces += 1
+        if "C02." in clauses:
+            if got == want:
+                ctx.count("C02.universe", "ok")
+            else:
+                ctx.count("C02.universe", "fail")
+                ctx.violations.append(("C02.universe", dict(rec, got=list(got) if got is not None else None), "schema=%r datum=%r" % (raw, datum)))
+        if "C01." in clauses or "C03." in clauses:
+            inputs = [want] if "C01." in clauses else [bytes(l) for l in c["layouts"]]
+            clause = "C01.universe" if "C01." in clauses else "C03.universe"
+            okall = True
+            for data in inputs:
+                kind, v, pos = p_layout.read_outcome(fa, data, raw)
+                if not (kind == "value" and p_layout.veq(proj.pv(v), c["expect"]) and pos == len(data)):
+                    okall = False
+                    ctx.violations.append((clause, dict(rec, input=list(data), got=repr(v)[:200]), "schema=%r bytes=%s" % (raw, data.hex())))
+                    break
+            ctx.count(clause, "ok" if okall else "fail")
+
+
 def run_c01(ctx, fa):
+    model_and_replay(ctx, fa, ("C01.",))
     run(ctx, fa, ("C01.",))
+    ctx.exhaustive = False
 
 
 def run_c02(ctx, fa):
+    model_and_replay(ctx, fa, ("C02.",))
     run(ctx, fa, ("C02.",))
